@@ -402,6 +402,24 @@ def main():
             else:
                 rec["status"] = "undecided"
             fn_records.append(rec)
+    # configuration obligations (mechanical, not deductive): facts about build files the proofs were made under
+    for co in pinfo.get("config_obligations", []):
+        oid = "config::" + co["id"]
+        obligations.append(oid)
+        path = os.path.join(REPO, co["file"])
+        try:
+            txt = open(path).read()
+            okc = re.search(co["must_match"], txt, re.M) is not None
+        except Exception:
+            txt = ""
+            okc = False
+        rec = {"id": oid, "kind": "config", "source": co["file"], "backend": "regex on the build file", "status": "discharged" if okc else "FAILED", "solver_ms": 0, "rlimit": None}
+        fn_records.append(rec)
+        if okc:
+            discharged.append(oid)
+        else:
+            violations.append((oid, [{"msg": "configuration obligation not met: " + co["why"], "at": co["file"], "clause": co["must_match"], "line": None, "src_line": None, "rendered": co["why"]}], None))
+
     # Kani results
     kani_records = []
     if kani_res:
